@@ -58,6 +58,9 @@ func runConc(src sim.Source, o Opts, res *Result, plan concPlan) {
 				p = append(p, COp{Kind: "txn", Txn: genCTxn(src, cw, &nextTag)})
 			} else if src.Intn("wread", 6) == 5 {
 				p = append(p, genReadCOp(src, cw))
+			} else if src.Intn("truncabort", 12) == 11 {
+				// a write transaction that truncates one method (or all) and is given up: it only reads the published tree
+				p = append(p, COp{Kind: "truncabort", Key: src.Intn("trunckey", len(cw.keys)+1) - 1})
 			} else if src.Intn("inhandler", 8) == 7 {
 				nextTag++
 				wop := genWriteCOp(src, len(cw.keys), nextTag)
